@@ -107,7 +107,7 @@ def hashAliases (digest : Str) : Str × Str :=
     | none => (name.map (fun c => if c = 45 then 95 else c), name)
 
 /-- `norm_hash_name(name, "iana")` = `lookup_hash(name, required=False).iana_name`.
-    `lookup_hash` recurses on the hashlib name until it is a fixed point; `assert name` fails on "";
+    `lookup_hash` recurses on the hashlib name until it is a fixed point; an empty normalized name is an UnknownHashError (ValueError);
     at the fixed point the constructor lookup may raise (table `lookupRaises`).  Each round strictly shortens or
     fixes the name, and a round that does neither is followed by one that does, so `fuel = 2·length + 4` suffices
     (exhaustion would be Python's RecursionError). -/
@@ -115,7 +115,7 @@ def lookupIana : Nat → Str → Res Str
   | 0, _ => .error .runtimeError
   | fuel + 1, digest =>
     let (h, i) := hashAliases digest
-    if h.isEmpty then .error .assertionError
+    if h.isEmpty then .error .unknownHash               -- UnknownHashError (a ValueError): nothing left of the name
     else if h ≠ digest then lookupIana fuel h
     else if h.contains 0 then .error .typeError      -- `hashlib.new("…\0…")`: "TypeError: name must be a string"
     else match lookupRaises.find? (·.1 = h) with
